@@ -198,6 +198,14 @@ func (x rtype) eq(_ types.Type, y interface{}) bool {
 // In a well-typed program, the dynamic types of x and y are
 // guaranteed equal.
 func equals(t types.Type, x, y value) bool {
+	if isSymString(x) || isSymString(y) {
+		switch c := symStringBinop(token.EQL, x, y).(type) {
+		case bool:
+			return c
+		case symv:
+			return c.ex.decide(c)
+		}
+	}
 	if isSym(x) || isSym(y) {
 		c, ok := symBinop(token.EQL, t, x, y).(symv)
 		if !ok {
@@ -266,6 +274,8 @@ func hash(outer, t types.Type, x value) int {
 	switch x := x.(type) {
 	case symv:
 		unsupported("symbolic value used as (part of) a map key of type %v", outer)
+	case symString:
+		unsupported("string with symbolic bytes used as (part of) a map key of type %v", outer)
 	case bool:
 		if x {
 			return 1
